@@ -304,11 +304,14 @@ impl Iterator for SeqToHashes {
                     let hash = crate::_hash_murmur(std::cmp::min(kmer, krc), self.seed);
                     self.kmer_index += 1;
                     Some(Ok(hash))
-                } else if self.hashes_buffer.is_empty() && self.translate_iter_step == 0 {
+                } else {
                     // Processing protein by translating DNA
                     // TODO: Implement iterator over frames instead of hashes_buffer.
 
-                    for frame_number in 0..3 {
+                    // Fill the buffer on the first call, then fall through and
+                    // start yielding from it: no bookkeeping `Ok(0)` is emitted.
+                    let first_call = self.hashes_buffer.is_empty() && self.translate_iter_step == 0;
+                    for frame_number in 0..(if first_call { 3 } else { 0 }) {
                         let substr: Vec<u8> = self
                             .sequence
                             .iter()
@@ -348,12 +351,10 @@ impl Iterator for SeqToHashes {
                             self.hashes_buffer.push(hash);
                         });
                     }
-                    Some(Ok(0))
-                } else {
                     if self.translate_iter_step == self.hashes_buffer.len() {
                         self.hashes_buffer.clear();
                         self.kmer_index = self.max_index;
-                        return Some(Ok(0));
+                        return None;
                     }
                     let curr_idx = self.translate_iter_step;
                     self.translate_iter_step += 1;
